@@ -679,6 +679,16 @@ def rOfL (l : List (String × Lit)) (k : String) : Lit :=
   | some r => r
   | none => .atom autoAtom
 
+theorem lookupS_some_of_mem_keys {α} : ∀ (l : List (String × α)) (k : String),
+    k ∈ l.map (·.1) → ∃ d, lookupS k l = some d
+  | [], _, h => by simp at h
+  | (k', v) :: l, k, h => by
+    simp only [lookupS]
+    by_cases e : k = k'
+    · simp [e]
+    · simp only [beq_iff_eq, e, if_false]
+      exact lookupS_some_of_mem_keys l k (by simpa [e] using h)
+
 /-! ### one object: print, read, compare -/
 
 theorem obj_roundtrip (classes : Classes) (ev : List String → Option Atom) (q : Bool) (c : Nat) (cls : Cls)
@@ -808,6 +818,157 @@ theorem obj_roundtrip (classes : Classes) (ev : List String → Option Atom) (q 
     rw [zip_map_fst_snd (fun (p : String × TT) => p.1) (fun p => rOfL ((cls.params.map (·.name)).zip rs) p.1)]
     simp only [List.map_map, Function.comp_def]
   refine ⟨_, _, hpp, hev.trans hcons, ?_⟩
-  sorry
+  -- parameter by parameter
+  simp only [sEqv, beq_self_eq_true, Bool.true_and, hc]
+  apply objEqvL_map classes cls.name _ cls.params vals hlen.symm
+  intro p v hpv
+  have hkn' : p.name ∈ cls.params.map (·.name) := List.mem_map.2 ⟨p, (List.of_mem_zip hpv).1, rfl⟩
+  obtain ⟨v', hv', ht, hevk, hsv⟩ := hfacts p.name hkn'
+  have hv : lookupS p.name ((cls.params.map (·.name)).zip vals) = some v :=
+    lookupS_zip_of_mem_zip cls.params vals p v hnd hpv
+  rw [hv] at hv'
+  simp only [Option.some.injEq] at hv'
+  subst hv'
+  -- the three places a name can be bound in
+  have hPOSkeys : ((posargsOf cls.sig).map fun k => (k, rOfL ((cls.params.map (·.name)).zip rs) k)).map (·.1)
+      = posargsOf cls.sig := by simp [List.map_map, Function.comp_def]
+  have hKWkeys : (((outs'.filterMap kwOf).map (·.1)).map
+      fun k => (k, rOfL ((cls.params.map (·.name)).zip rs) k)).map (·.1) = (outs'.filterMap kwOf).map (·.1) := by
+    simp [List.map_map, Function.comp_def]
+  have hL_pos : p.name ∈ posargsOf cls.sig → ∀ F, lookupS p.name
+      ((posargsOf cls.sig).map (fun k => (k, rOfL ((cls.params.map (·.name)).zip rs) k)) ++
+        ((outs'.filterMap kwOf).map (·.1)).map (fun k => (k, rOfL ((cls.params.map (·.name)).zip rs) k)) ++ F)
+      = some (rOfL ((cls.params.map (·.name)).zip rs) p.name) := by
+    intro h F
+    rw [lookupS_append, lookupS_append, lookupS_map_self _ _ _ h]
+  have hL_kw : p.name ∉ posargsOf cls.sig → p.name ∈ (outs'.filterMap kwOf).map (·.1) → ∀ F, lookupS p.name
+      ((posargsOf cls.sig).map (fun k => (k, rOfL ((cls.params.map (·.name)).zip rs) k)) ++
+        ((outs'.filterMap kwOf).map (·.1)).map (fun k => (k, rOfL ((cls.params.map (·.name)).zip rs) k)) ++ F)
+      = some (rOfL ((cls.params.map (·.name)).zip rs) p.name) := by
+    intro h1 h2 F
+    rw [lookupS_append, lookupS_append, lookupS_none_of_not_mem _ _ (by rw [hPOSkeys]; exact h1),
+      lookupS_map_self _ _ _ h2]
+  have hL_un : p.name ∉ posargsOf cls.sig → p.name ∉ (outs'.filterMap kwOf).map (·.1) → lookupS p.name
+      ((posargsOf cls.sig).map (fun k => (k, rOfL ((cls.params.map (·.name)).zip rs) k)) ++
+        ((outs'.filterMap kwOf).map (·.1)).map (fun k => (k, rOfL ((cls.params.map (·.name)).zip rs) k)) ++
+        (kwargsOf cls.sig).filter (fun p => (lookupS p.1
+          ((posargsOf cls.sig).map (fun k => (k, rOfL ((cls.params.map (·.name)).zip rs) k)) ++
+          ((outs'.filterMap kwOf).map (·.1)).map
+            (fun k => (k, rOfL ((cls.params.map (·.name)).zip rs) k)))).isNone))
+      = lookupS p.name (kwargsOf cls.sig) := by
+    intro h1 h2
+    have hnone : lookupS p.name
+        ((posargsOf cls.sig).map (fun k => (k, rOfL ((cls.params.map (·.name)).zip rs) k)) ++
+        ((outs'.filterMap kwOf).map (·.1)).map (fun k => (k, rOfL ((cls.params.map (·.name)).zip rs) k))) = none := by
+      rw [lookupS_append, lookupS_none_of_not_mem _ _ (by rw [hPOSkeys]; exact h1),
+        lookupS_none_of_not_mem _ _ (by rw [hKWkeys]; exact h2)]
+    rw [lookupS_append, hnone]
+    simp only
+    rw [lookupS_filter_key (fun k => (lookupS k
+      ((posargsOf cls.sig).map (fun k => (k, rOfL ((cls.params.map (·.name)).zip rs) k)) ++
+      ((outs'.filterMap kwOf).map (·.1)).map
+        (fun k => (k, rOfL ((cls.params.map (·.name)).zip rs) k)))).isNone) (kwargsOf cls.sig) p.name]
+    simp only [hnone, Option.isNone_none, if_true]
+  -- bound by keyword exactly when the loop decided `kw`
+  have hbound_of_kw : ∀ tv, p.name ∉ posargsOf cls.sig →
+      p.name ∈ (kwargsOf cls.sig).map (·.1) ++ ordering cls.params (changedNames cls.name cls.params vals) →
+      decOf cls vals tvs p.name = .kw tv → p.name ∈ (outs'.filterMap kwOf).map (·.1) := by
+    intro tv h1 h2 h3
+    have := ppLoop_complete _ _ _ _ hout' p.name h2 h1 (by rw [h3]; simp)
+    rw [h3] at this
+    exact List.mem_map.2 ⟨(p.name, tv), (mem_filterMap_kwOf outs' _ _).2 this, rfl⟩
+  have hunbound_of_skip : decOf cls vals tvs p.name = .skip → p.name ∉ (outs'.filterMap kwOf).map (·.1) := by
+    intro h hm
+    obtain ⟨⟨k', tv⟩, hmem, e⟩ := List.mem_map.1 hm
+    simp only at e
+    subst e
+    have := (hm' _ _ ((mem_filterMap_kwOf outs' _ _).1 hmem)).2.2.1
+    rw [h] at this
+    simp at this
+  have hunbound_of_notkey : p.name ∉ (kwargsOf cls.sig).map (·.1) ++
+      ordering cls.params (changedNames cls.name cls.params vals) → p.name ∉ (outs'.filterMap kwOf).map (·.1) := by
+    intro h hm
+    obtain ⟨⟨k', tv⟩, hmem, e⟩ := List.mem_map.1 hm
+    simp only at e
+    subst e
+    exact h (hm' _ _ ((mem_filterMap_kwOf outs' _ _).1 hmem)).1
+  by_cases hp1 : p.name ∈ posargsOf cls.sig
+  · -- (1) a positional argument
+    have hne : p.name ≠ "name" := fun e => hnoname (e ▸ (hmem_args _).2 (Or.inl hp1))
+    simp only [hL_pos hp1, beq_iff_eq, hne, if_false, hsv, Bool.true_or]
+  · by_cases hp2 : p.name ∈ (kwargsOf cls.sig).map (·.1)
+    · -- (2) an argument with a default in the signature
+      have hne : p.name ≠ "name" := fun e => hnoname (e ▸ (hmem_args _).2 (Or.inr hp2))
+      obtain ⟨d, hd⟩ := lookupS_some_of_mem_keys _ _ hp2
+      by_cases hpe : pyEq d v = true
+      · have hsk : decOf cls vals tvs p.name = .skip :=
+          decideKey_eq_skip_unchanged _ _ _ _ _ _ _ v _ hv ht (by simp [kwUnchanged, hd, hpe])
+        simp only [hL_un hp1 (hunbound_of_skip hsk), hd, beq_iff_eq, hne, if_false, hpe, Bool.true_or,
+          Bool.or_true]
+      · have hkw' : decOf cls vals tvs p.name = .kw _ :=
+          decideKey_eq_kw _ _ _ _ _ _ _ v _ (hns _ hne) hv ht (by simp [kwUnchanged, hd, hpe])
+            (by simpa using hp1) (by simp [hd])
+        have hb := hbound_of_kw _ hp1 (List.mem_append.2 (Or.inl hp2)) hkw'
+        simp only [hL_kw hp1 hb, beq_iff_eq, hne, if_false, hsv, Bool.true_or]
+    · -- (3) not an argument of the signature: reaches the constructor through **params
+      have hkwn : lookupS p.name (kwargsOf cls.sig) = none := lookupS_none_of_not_mem _ _ hp2
+      by_cases hsup : nameSuppressed cls.name ((cls.params.map (·.name)).zip vals) p.name = true
+      · -- a name of the auto-generated form: never printed
+        have hsk : decOf cls vals tvs p.name = .skip := by
+          unfold decOf decideKey
+          simp [hsup]
+        unfold nameSuppressed at hsup
+        simp only [Bool.and_eq_true, beq_iff_eq, hv] at hsup
+        obtain ⟨hnm, hrest⟩ := hsup
+        obtain ⟨a, rfl, _, _⟩ := hname p v hpv hnm
+        simp only [Bool.and_eq_true, beq_iff_eq] at hrest
+        simp only [hL_un hp1 (hunbound_of_skip hsk), hkwn]
+        simp only [hnm, beq_self_eq_true, if_true, nameEqv, hrest.1, hrest.2, Bool.and_self, Bool.true_or]
+      · have hsup' : nameSuppressed cls.name ((cls.params.map (·.name)).zip vals) p.name = false := by
+          simpa using hsup
+        by_cases hord : p.name ∈ ordering cls.params (changedNames cls.name cls.params vals)
+        · have hkw' : decOf cls vals tvs p.name = .kw _ :=
+            decideKey_eq_kw _ _ _ _ _ _ _ v _ hsup' hv ht (hkwnone _ hp2 v) (by simpa using hp1) (by simp [hvk])
+          have hb := hbound_of_kw _ hp1 (List.mem_append.2 (Or.inr hord)) hkw'
+          by_cases hnm : p.name = "name"
+          · obtain ⟨a, rfl, _, _⟩ := hname p v hpv hnm
+            have := sEqv_atom_right classes _ a hsv
+            simp only [hL_kw hp1 hb, this]
+            simp only [hnm, beq_self_eq_true, if_true, nameEqv, Bool.or_true]
+          · simp only [hL_kw hp1 hb, beq_iff_eq, hnm, if_false, hsv, Bool.true_or]
+        · -- unchanged: the constructor falls back to the Parameter default
+          have hub := hunbound_of_notkey (by
+            intro h; rcases List.mem_append.1 h with h | h
+            · exact hp2 h
+            · exact hord h)
+          have hnotch : p.name ∉ changedNames cls.name cls.params vals :=
+            fun h => hord ((mem_ordering _ _ _).2 h)
+          by_cases hnm : p.name = "name"
+          · exfalso
+            obtain ⟨a, rfl, hstr, hor⟩ := hname p v hpv hnm
+            have hnl : isAutoLike cls.name a.text = false := by
+              unfold nameSuppressed at hsup'
+              simp only [hnm, beq_self_eq_true, Bool.true_and] at hsup'
+              rw [← hnm, hv] at hsup'
+              simpa [hstr] using hsup'
+            rcases hor with h | h
+            · rw [hnl] at h; simp at h
+            · apply hnotch
+              apply changedNames_mem _ _ _ p _ hpv _ h
+              unfold autoNamed
+              have : isAutoName cls.name a.text = false := by
+                cases hh : isAutoName cls.name a.text
+                · rfl
+                · rw [isAutoName_isAutoLike _ _ hh] at hnl; simp at hnl
+              simp [this]
+          · have heq : isEqual v p.default = true := by
+              cases hh : isEqual v p.default
+              · exfalso
+                apply hnotch
+                apply changedNames_mem _ _ _ p _ hpv _ hh
+                unfold autoNamed
+                simp [hnm]
+              · rfl
+            simp only [hL_un hp1 hub, hkwn, beq_iff_eq, hnm, if_false, heq, Bool.or_true]
 
 end ParamVerif.Repr
